@@ -30,7 +30,7 @@ type Stats struct {
 	AllHash   Hash                // hash of all case hashes in order: the worker's determinism fingerprint
 	Samples   []json.RawMessage
 	SimSteps  int64
-	SimTimeNs int64
+	SimTimeS  float64
 	Runs      int64 // interpreter executions (a case usually runs many)
 }
 
@@ -96,7 +96,7 @@ type WorkerResult struct {
 	LogHash    string            `json:"log_hash"`
 	Samples    []json.RawMessage `json:"samples"`
 	SimSteps   int64             `json:"sim_steps"`
-	SimTimeNs  int64             `json:"sim_time_ns"`
+	SimTimeS   float64           `json:"sim_time_s"`
 	WallS      float64           `json:"wall_s"`
 	Wedged     bool              `json:"wedged,omitempty"`
 }
@@ -203,7 +203,7 @@ func RunWorker(e Engine) int {
 		res.LogHash = strconv.FormatUint(uint64(st.AllHash), 16)
 		res.Samples = st.Samples
 		res.SimSteps = st.SimSteps
-		res.SimTimeNs = st.SimTimeNs
+		res.SimTimeS = st.SimTimeS
 		res.WallS = time.Since(start).Seconds()
 		if out != "" {
 			b, _ := json.Marshal(res)
